@@ -122,6 +122,9 @@ func propStatic(t *rapid.T) {
 	if pv := try(register); pv != nil {
 		t.Fatalf("registration of %q under groups %q panicked: %v", reg, prefixes, pv)
 	}
+	// options come before routes: switching one on now is refused (the application recovers), and the router keeps
+	// normalising the way it was configured
+	model.RejectedOptions(r, model.Options{Strict: strict})
 	if got := route.Path(); got != want {
 		t.Fatalf("strict=%v groups=%q registered %q: Route.Path()=%q, specification gives %q", strict, prefixes, reg, got, want)
 	}
@@ -350,6 +353,7 @@ func propEncoded(t *rapid.T) {
 		name := p
 		r.GET(p, func(c *rux.Context) { c.WriteString(name) })
 	}
+	model.RejectedOptions(r, model.Options{EncodedPath: encoded}) // too late: refused, nothing changes
 	raw := "/" + rapid.SampledFrom([]string{"a%20b", "a%2520b", "a%2Fb", "a/b", "%C3%A9", "é", "a+b", "a%2fb", "a%20b/", "a b"}).Draw(t, "rawSeg")
 	u, err := url.ParseRequestURI(raw)
 	if err != nil {
